@@ -995,6 +995,23 @@ fn simplify_leaf(l: &Leaf, out: &mut Vec<Node>) {
     }
 }
 
+/// does some clause of `n` hold the same operand (marker and expression) twice?
+pub fn has_duplicate_siblings(n: &Node) -> bool {
+    fn dup(items: &[&(Occ, Node)]) -> bool {
+        (0..items.len()).any(|i| (0..i).any(|j| items[i] == items[j]))
+    }
+    match n {
+        Node::Leaf(_) => false,
+        Node::Occur(items) => {
+            dup(&items.iter().collect::<Vec<_>>()) || items.iter().any(|(_, x)| has_duplicate_siblings(x))
+        }
+        Node::OrOfAnds(groups) => groups
+            .iter()
+            .any(|g| dup(&g.iter().collect::<Vec<_>>()) || g.iter().any(|(_, x)| has_duplicate_siblings(x))),
+        Node::Group { inner, .. } => has_duplicate_siblings(inner),
+    }
+}
+
 /// may `n` stand inside `field:( ... )` with the same meaning? (its unfielded leaves take the
 /// group's field, `*` turns into an exists query)
 fn group_safe(n: &Node, field: FieldSel) -> bool {
